@@ -24,7 +24,7 @@ PROPS["C03"] = dict(
             "the Interpreter is assembled field by field with empty code and an 8-word stack buffer (these opcodes never push or read code)",
     assumptions=["reference models are limb-wise (carry chains, funnel shifts, explicit sign tests) and do not use ruint",
                  "NoHost: any host call is a failure", "Kani/CBMC/CaDiCaL trusted"],
-    harnesses=[H("c03::c03_" + n, bounds="all operands x all gas", timeout=900, mem_gb=6) for n in _C03_A]
+    harnesses=[H("c03::c03_" + n, bounds="all operands x all gas", timeout=2400, mem_gb=6) for n in _C03_A]
     + [H("c03::c03_" + n + "::underflow", bounds="one operand short", timeout=600, mem_gb=4) for n in _C03_A]
     + [H("c03::c03_addmod_reduced_operands", bounds="ADDMOD for all a, b < N (all N): 257-bit sum with one conditional subtraction; ruint div_rem stubbed to fail if reached",
          timeout=900, mem_gb=6, stubs_expected=["div_rem"]),
@@ -172,10 +172,11 @@ PROPS["C10"] = dict(
     assumptions=["Interpreter assembled field by field with an 8-word stack buffer (c03::new_interp)", "Kani/CBMC/CaDiCaL; z3/cvc5 trusted",
                  "MIR aggregate `CallInputs { .. is_static: X .. }` is the only place the child's flag is set (one construction per opcode, checked)"],
     harnesses=[H("c10::c10_" + n, timeout=600, mem_gb=6, bounds="all operands x all gas, static frame") for n in _C10]
-    + [H("c10::c10_call_with_value", timeout=1200, mem_gb=14, bounds="all non-zero values x target x gas"),
+    + [H("c10::c10_call_with_value", tier="thorough", timeout=2400, mem_gb=26, bounds="all non-zero values x all gas (concrete target; 18.5 GB)"),
        H("c10::c10_extcall_with_value", tier="thorough", timeout=1500, mem_gb=14, bounds="all non-zero values x target x gas (EOF frame)"),
        H("c10::c10_twin_must_fail", expect_fail=True, bounds="vacuity twin", mem_gb=6)],
-    jobs=[dict(name="e3::static_flag_propagation", fn=jobs_e3.run_static_flag)],
+    jobs=[dict(name="e3::static_flag_propagation", fn=jobs_e3.run_static_flag),
+          dict(name="e3::static_value_guard", fn=jobs_e3.run_value_guard)],
 )
 
 # --------------------------------------------------------------------------- C11
